@@ -689,6 +689,22 @@ example : convert ⟨false, []⟩ (textDoc [.elem qP [] [.text [97], .elem qS []
     .ok (docStart ++ [.ctag nHead true, .otag nBody [] true, .otag nP [] false, .text [97], .raw .nbsp, .text [98], .ctag nP true,
                       .ctag nBody true, .ctag nHtml true]) := by rfl
 
+/-! ### pending: paragraph text directly in front of a drawing shape (harness class `x-pending-before-shape`) -/
+
+def qCustomShape : Str := [100, 114, 97, 119, 58, 99, 117, 115, 116, 111, 109, 45, 115, 104, 97, 112, 101]  -- draw:custom-shape
+def qRect : Str := [100, 114, 97, 119, 58, 114, 101, 99, 116]  -- draw:rect
+
+/-- **C18 (XHTML, pending x-pending-before-shape)**: `<p>a<custom-shape><p>b</p></custom-shape>c</p>` — s_custom_shape
+    opens its <div> without writing the pending data, the paragraph inside purges it: the "a" is lost (the frame of
+    29b6eef above keeps it).  The real converter gives the same text (corpus document `custom-shape-in-paragraph`). -/
+theorem custom_shape_loses_pending_text : (convert ⟨false, []⟩ (textDoc [.elem qP [] [.text [97],
+    .elem qCustomShape [] [.elem qP [] [.text [98]]], .text [99]]])).toOption.map textOf = some [98, 99] := by rfl
+
+/-- **C18 (XHTML, pending x-pending-before-shape)**: the same with a shape that has no handler at all (draw:rect, corpus
+    document `shape-in-paragraph`) -/
+theorem unhandled_shape_loses_pending_text : (convert ⟨false, []⟩ (textDoc [.elem qP [] [.text [97],
+    .elem qRect [] [.elem qP [] [.text [98]]], .text [99]]])).toOption.map textOf = some [98, 99] := by rfl
+
 /-! ### MoinMoin -/
 
 /-- styles.xml without any style, and content.xml with the given children of office:text, as minidom shows them -/
